@@ -372,6 +372,12 @@ fn inbox_json(d: &mut Detached, w: &World) -> Vec<Value> {
 
 /// Execute one run of `shape` under the explorer's schedule. Returns (events, meta, bad).
 pub fn one_run(shape: &Shape, ex: &mut Explorer) -> (Vec<Value>, Value, bool) {
+    one_run_impl(shape, ex, None)
+}
+
+/// `free`: Some(spin counts) runs the threads uncontrolled (hctl::run_threads_free): only call / return lines and the
+/// final observations are kept (shapes for this mode have no Query and no Exit operations).
+fn one_run_impl(shape: &Shape, ex: &mut Explorer, free: Option<Vec<u32>>) -> (Vec<Value>, Value, bool) {
     let run = RUN.fetch_add(1, Ordering::SeqCst) + 1;
     let prefix = format!("r{run}_");
     // a1, a3: local ids; a2: a remote-looking id
@@ -428,7 +434,15 @@ pub fn one_run(shape: &Shape, ex: &mut Explorer) -> (Vec<Value>, Value, bool) {
             verif::emit("obs.snap", 0, (sd.len() - 1) as i64);
         }
     };
-    let run_res = run_threads_obs(threads, ex, 800, &mut after);
+    let is_free = free.is_some();
+    let run_res = match &free {
+        Some(spin) => {
+            let hts: Vec<crate::hctl::HThread> = threads.into_iter().map(|(role, f)| crate::hctl::HThread { role, f }).collect();
+            let r = crate::hctl::run_threads_free(hts, spin);
+            PRun { events: r.events, steps: 0, overrun: false, stuck: vec![] }
+        }
+        None => run_threads_obs(threads, ex, 800, &mut after),
+    };
     // end of run: the four indexes, the statuses, what every supervision port received
     let (snap_end, _) = w.snapshot();
     let st_end = w.statuses();
@@ -456,7 +470,7 @@ pub fn one_run(shape: &Shape, ex: &mut Explorer) -> (Vec<Value>, Value, bool) {
     let side = side.lock().unwrap();
     let nthreads = shape.threads.len();
     let mut evs: Vec<Value> = vec![];
-    for e in run_res.events.iter().filter(|e| KEEP.contains(&e.a.as_str())) {
+    for e in run_res.events.iter().filter(|e| KEEP.contains(&e.a.as_str()) && (!is_free || e.a == "obs.call" || e.a == "obs.ret")) {
         if e.a == "status.set" && !(e.who.starts_with('t') && e.who[1..].parse::<usize>().map(|n| n <= nthreads).unwrap_or(false)) {
             continue;
         }
@@ -493,7 +507,7 @@ pub fn one_run(shape: &Shape, ex: &mut Explorer) -> (Vec<Value>, Value, bool) {
     evs.push(json!({"a": "obs.leak", "who": "drv", "obj": "", "d": left, "t": 0}));
     let bad = run_res.overrun || !run_res.stuck.is_empty();
     let st0: Map<String, Value> = (0..NACT).map(|i| (format!("a{}", i + 1), json!(shape.st0[i] as i64))).collect();
-    let meta = json!({"family": "pg", "shape": shape.name, "shape_json": shape.to_json(), "st0": Value::Object(st0), "sched": ex.sched,
+    let meta = json!({"family": if is_free { "pg-free" } else { "pg" }, "shape": shape.name, "shape_json": shape.to_json(), "st0": Value::Object(st0), "sched": ex.sched,
                       "steps": run_res.steps, "stuck": run_res.stuck, "overrun": run_res.overrun});
     (evs, meta, bad)
 }
@@ -621,6 +635,43 @@ pub fn batch(out: &str, scale: usize, seed: u64) -> Value {
            "distinct_nontrivial": nontrivial.len(), "bad_runs": bad_runs, "samples": b.samples})
 }
 
+/// Free-running batch: joins and leaves of different groups of one scope (and monitors) on real threads. What the
+/// engine-H runs cannot reach is a window inside one of the index helpers (each is one DashMap entry region).
+pub fn batch_free(out: &str, tier: &str, seed: u64) -> Value {
+    use Op::*;
+    let mut b = Batch::new(Some(out));
+    let mut rng = Rng(seed ^ 0x7067_f4ee);
+    let runs = if tier == "thorough" { 16000 } else { 4000 };
+    let flap = |sc: &'static str, gr: &'static str, a: usize, n: usize| -> Vec<Op> {
+        let mut v = vec![];
+        for _ in 0..n {
+            v.push(Join(sc, gr, vec![a]));
+            v.push(Leave(sc, gr, vec![a]));
+        }
+        v
+    };
+    for r in 0..runs {
+        let threads: Vec<Vec<Op>> = match r % 4 {
+            // the last group of a scope goes while another group of the scope arrives
+            0 => vec![flap("s1", "g1", 0, 4), vec![Join("s1", "g2", vec![2])]],
+            1 => vec![flap("d", "g2", 2, 4), vec![Join("d", "g1", vec![0])], vec![SMon("s1", 2)]],
+            // both groups flap; the second ends as a member
+            2 => vec![flap("s1", "g1", 0, 3), { let mut v = flap("s1", "g2", 2, 2); v.push(Join("s1", "g2", vec![2])); v }],
+            // the same group from two threads, a monitor coming and going
+            _ => vec![flap("s1", "g1", 0, 2), vec![Join("s1", "g1", vec![2]), Leave("s1", "g1", vec![2])], vec![Mon("g1", 2), Demon("g1", 2)]],
+        };
+        let n = threads.len();
+        let shape = Shape { name: format!("free{}", r % 4), st0: [2, 2, 2], threads, snap: false };
+        let spin: Vec<u32> = (0..n).map(|_| rng.below(400) as u32).collect();
+        let mut ex = Explorer::new(Mode::Random, r as u64);
+        ex.begin_run();
+        let (evs, meta, _) = one_run_impl(&shape, &mut ex, Some(spin));
+        b.run(meta, &evs);
+    }
+    b.finish();
+    json!({"family": "pg-free", "runs": b.runs, "events": b.events, "distinct": b.hashes.len(), "samples": b.samples})
+}
+
 /// Replay one schedule of one shape (for violation replays)
 pub fn replay(shape_json: &str, sched: Vec<usize>, out: &str) -> Value {
     let Some(sh) = serde_json::from_str::<Value>(shape_json).ok().and_then(|v| Shape::from_json(&v)) else {
@@ -642,6 +693,7 @@ pub fn dispatch(cmd: &str, a: &HashMap<String, String>) -> Option<Value> {
             let scale: usize = a.get("scale").and_then(|s| s.parse().ok()).unwrap_or(if tier == "thorough" { 4 } else { 1 });
             Some(batch(&out, scale, seed))
         }
+        "pg-free" => Some(batch_free(&out, &tier, seed)),
         "pg-replay" => {
             let shape = a.get("shape-json").cloned().unwrap_or_default();
             let sched: Vec<usize> = serde_json::from_str(a.get("sched").map(|s| s.as_str()).unwrap_or("[]")).unwrap_or_default();
